@@ -189,4 +189,9 @@ func TestVerifC09(t *testing.T) {
 		}
 		_ = url.Parse
 	}
+	// a genuine entry shown as an error item is not a violation of this statement, but more than a handful means that either the
+	// reference views or servitor misjudge legitimate entries: the run must not count as green then
+	if g, e := c.R.Counters["genuine_entries_shown"], c.R.Counters["genuine_shown_as_error"]; e > 0 && e*50 > g {
+		c.Inconclusive(fmt.Sprintf("%d genuine entries were shown as error items (against %d shown as genuine): reference views and servitor disagree about legitimate entries", e, g))
+	}
 }
